@@ -1,20 +1,126 @@
-(* C15 part 2: every rewrite of _optimize_binop / _comparison_helper (model: Optimizer.v) preserves
-   value and effect trace; in truthy contexts truthiness and effect trace. *)
+(* C15 part 2: every rewrite of _optimize_binop / _comparison_helper (model: Optimizer.v) preserves the
+   meaning of the node for every compositional semantics of the rest of the language (Syntax.Sem):
+   same final state / halting observation and same value; in truthy contexts same truthiness. *)
 From Coq Require Import ZArith Bool List String Lia.
 From Verif Require Import Base.Word256 Base.PyInt Base.WordLemmas C15.Syntax C15.WordFacts C15.GenUtils C15.Optimizer C15.FoldSound.
 Import ListNotations.
 Open Scope Z_scope.
 
-Definition equiv_val (e e' : expr) : Prop :=
-  forall en orc tr, eval en orc e tr = eval en orc e' tr.
-(* truthy = true: same effects, same truthiness;  truthy = false: same effects, same value *)
+(* induction principle for the rose tree *)
+Section ExprInd.
+Variable P : expr -> Prop. (*section*)
+Hypothesis HL : forall v, P (Lit v). (*section*)
+Hypothesis HV : forall x, P (Var x). (*section*)
+Hypothesis HN : forall op args, Forall P args -> P (Node op args). (*section*)
+Fixpoint expr_ind2 (e : expr) : P e :=
+  match e with
+  | Lit v => HL v
+  | Var x => HV x
+  | Node op args =>
+      HN op args ((fix go (l : list expr) : Forall P l :=
+                    match l with [] => Forall_nil P | x :: t => Forall_cons x (expr_ind2 x) (go t) end) args)
+  end.
+End ExprInd.
+
+Lemma wf_node op args : wf (Node op args) <-> Forall wf args.
+Proof.
+  cbn [wf]. induction args as [|x t IH]; [split; auto|].
+  split; intros H.
+  - destruct H as [H1 H2]. constructor; [exact H1 | apply IH; exact H2].
+  - inversion H; subst. split; [assumption | apply IH; assumption].
+Qed.
+Lemma wf_bin o a b : wf (Bin o a b) <-> wf a /\ wf b.
+Proof. unfold Bin. cbn [wf]. tauto. Qed.
+Lemma wf_un o a : wf (Un o a) <-> wf a.
+Proof. unfold Un. cbn [wf]. tauto. Qed.
+Lemma wf_seq1 a : wf (Seq1 a) <-> wf a.
+Proof. unfold Seq1. cbn [wf]. tauto. Qed.
+
+Lemma kind_of_bop o : kind_of (bop_name o) = KBin o.
+Proof. destruct o; reflexivity. Qed.
+Lemma kind_of_uop o : kind_of (uop_name o) = KUn o.
+Proof. destruct o; reflexivity. Qed.
+
+Section S.
+Variable SM : Sem. (*section*)
+Hypothesis OK : SemOk SM. (*section*)
+Notation ev := (eval SM).
+
+Definition equiv_val (e e' : expr) : Prop := forall s, ev e s = ev e' s.
+Definition oeq_truthy (o o' : outcome (St SM) (Hl SM)) : Prop :=
+  match o, o' with
+  | Norm v s, Norm v' s' => s = s' /\ (v =? 0) = (v' =? 0)
+  | Halt h, Halt h' => h = h'
+  | _, _ => False
+  end.
+(* truthy = true: same final state / halting, same truthiness;  truthy = false: identical outcome *)
 Definition equiv (truthy : bool) (e e' : expr) : Prop :=
-  forall en orc tr,
-    snd (eval en orc e tr) = snd (eval en orc e' tr) /\
-    (if truthy then (fst (eval en orc e tr) =? 0) = (fst (eval en orc e' tr) =? 0)
-     else fst (eval en orc e tr) = fst (eval en orc e' tr)).
+  forall s, if truthy then oeq_truthy (ev e s) (ev e' s) else ev e s = ev e' s.
+Lemma oeq_truthy_refl o : oeq_truthy o o.
+Proof. destruct o; cbn; auto. Qed.
 Lemma equiv_val_any t e e' : equiv_val e e' -> equiv t e e'.
-Proof. intros H en orc tr. rewrite (H en orc tr). split; [reflexivity | destruct t; reflexivity]. Qed.
+Proof. intros H s. destruct t; [rewrite (H s); apply oeq_truthy_refl | apply H]. Qed.
+
+Lemma eval_bin o a b s :
+  ev (Bin o a b) s =
+  match ev b s with
+  | Norm vb s1 => match ev a s1 with Norm va s2 => Norm (bop_sem o va vb) s2 | Halt h => Halt h end
+  | Halt h => Halt h
+  end.
+Proof. unfold Bin. cbn [eval]. rewrite kind_of_bop. unfold bindd, ret. destruct (ev b s); [|reflexivity]. destruct (ev a s0); reflexivity. Qed.
+Lemma eval_un o a s :
+  ev (Un o a) s = match ev a s with Norm va s1 => Norm (uop_sem o va) s1 | Halt h => Halt h end.
+Proof. unfold Un. cbn [eval]. rewrite kind_of_uop. destruct o; unfold bindd, ret; destruct (ev a s); reflexivity. Qed.
+Lemma eval_seq1 a s : ev (Seq1 a) s = ev a s.
+Proof. reflexivity. Qed.
+Lemma eval_lit v s : ev (Lit v) s = Norm (wrap v) s.
+Proof. reflexivity. Qed.
+
+Lemma seq_den_range (ds : list (den SM)) :
+  Forall (fun d => forall s v s', d s = Norm v s' -> inw v) ds ->
+  forall s v s', seq_den SM ds s = Norm v s' -> inw v.
+Proof.
+  induction ds as [|d t IH]; intros F s v s' H.
+  - cbn in H. inversion H. unfold inw. wl.
+  - inversion F as [|? ? Fd Ft]; subst. destruct t as [|d2 t2].
+    + cbn [seq_den] in H. eapply Fd; eauto.
+    + cbn [seq_den] in H. unfold bindd in H. destruct (d s) as [v0 s0|]; [|discriminate].
+      eapply IH; eauto.
+Qed.
+
+Lemma eval_range e : forall s v s', ev e s = Norm v s' -> inw v.
+Proof.
+  induction e as [l|x|op args IH] using expr_ind2; intros s v s' H.
+  - cbn in H. inversion H. apply wrap_range.
+  - cbn in H. inversion H. apply wrap_range.
+  - cbn [eval] in H.
+    assert (KO: sem_K SM op (map ev args) s = Norm v s' -> inw v) by (intros E; eapply (K_range SM OK); eauto).
+    assert (KO0: sem_K SM op [] s = Norm v s' -> inw v) by (intros E; eapply (K_range SM OK); eauto).
+    destruct (kind_of op) eqn:Kd.
+    + (* bin *) destruct args as [|a [|b [|c r]]]; auto. inversion IH as [|? ? Ia Ib']; subst. inversion Ib' as [|? ? Ib _]; subst.
+      unfold bindd, ret in H. destruct (ev b s) as [vb s1|] eqn:Eb; [|discriminate].
+      destruct (ev a s1) as [va s2|] eqn:Ea; [|discriminate]. inversion H. apply bop_sem_range; eauto.
+    + (* un *) destruct o; destruct args as [|a [|b r]]; auto; inversion IH as [|? ? Ia _]; subst;
+      unfold bindd, ret in H; (destruct (ev a s) as [va s1|] eqn:Ea; [|discriminate]);
+      injection H as Hv Hs; rewrite <- Hv; [apply (uop_sem_range U_iszero) | apply (uop_sem_range U_not)]; eauto.
+    + (* ceil32 *) destruct args as [|a [|b r]]; auto. inversion IH as [|? ? Ia _]; subst.
+      unfold bindd, ret in H. destruct (ev a s) as [va s1|] eqn:Ea; [|discriminate]. inversion H. apply ceil32_sem_range; eauto.
+    + (* seq *) eapply seq_den_range; [|exact H]. clear H KO. induction IH; cbn; constructor; auto.
+    + (* if *) destruct args as [|c [|t [|f [|g r]]]]; auto.
+      * inversion IH as [|? ? Ic It']; subst. inversion It' as [|? ? It _]; subst.
+        unfold bindd, ret in H. destruct (ev c s) as [vc s1|]; [|discriminate].
+        destruct (vc =? 0); [inversion H; unfold inw; wl | eauto].
+      * inversion IH as [|? ? Ic It']; subst. inversion It' as [|? ? It If']; subst. inversion If' as [|? ? If_ _]; subst.
+        unfold bindd in H. destruct (ev c s) as [vc s1|]; [|discriminate]. destruct (vc =? 0); eauto.
+    + (* assert *) destruct args as [|c [|t r]]; auto.
+      unfold bindd, ret in H. destruct (ev c s) as [vc s1|]; [|discriminate].
+      destruct (vc =? 0); [discriminate | inversion H; unfold inw; wl].
+    + destruct args as [|c [|t r]]; auto.
+      unfold bindd, ret in H. destruct (ev c s) as [vc s1|]; [|discriminate].
+      destruct (vc =? 0); [discriminate | inversion H; unfold inw; wl].
+    + (* pass *) destruct args; auto. cbn in H. inversion H. unfold inw; wl.
+    + auto.
+Qed.
 
 (* value of a template given the values of the two slots *)
 Fixpoint tsem (t : tmpl) (vx vy : Z) : Z :=
@@ -55,78 +161,89 @@ Proof.
 Qed.
 
 Lemma inst_wf t x y : twf t -> wf x -> wf y -> wf (inst t x y).
-Proof. induction t; cbn; intros; tauto. Qed.
-
-Definition pure (e : expr) (v : Z) : Prop := forall en orc tr, eval en orc e tr = (v, tr).
-(* a non-complex node has no effect; its value is fixed by the environment *)
-Lemma noncomplex_pure e en orc : is_complex e = false ->
-  forall tr, eval en orc e tr = (fst (eval en orc e []), tr).
-Proof. destruct e; cbn; intros; try discriminate; reflexivity. Qed.
-Lemma lit_pure v : pure (Lit v) (wrap v).
-Proof. intros en orc tr. reflexivity. Qed.
-
-Lemma eval_bin en orc o a b tr :
-  eval en orc (Bin o a b) tr =
-  (bop_sem o (fst (eval en orc a (snd (eval en orc b tr)))) (fst (eval en orc b tr)),
-   snd (eval en orc a (snd (eval en orc b tr)))).
 Proof.
-  cbn [eval]. destruct (eval en orc b tr) as [vb t1]. cbn [fst snd].
-  destruct (eval en orc a t1). reflexivity.
+  induction t; cbn [twf inst]; intros; auto.
+  - apply wf_un; auto.
+  - apply wf_bin; split; tauto.
+  - apply wf_seq1; auto.
 Qed.
-Lemma eval_un en orc o a tr :
-  eval en orc (Un o a) tr = (uop_sem o (fst (eval en orc a tr)), snd (eval en orc a tr)).
-Proof. cbn [eval]. destruct (eval en orc a tr). reflexivity. Qed.
 
-(* instantiation when the other slot has a fixed value and no effect *)
-Lemma instX_0 en orc t x y vy :
-  (forall tr, eval en orc y tr = (vy, tr)) -> cntX t = 0%nat ->
-  forall vx tr, eval en orc (inst t x y) tr = (tsem t vx vy, tr).
+(* a non-complex node has no effect; its value is read from the current state *)
+Definition pval (e : expr) (s : St SM) : Z :=
+  match e with Lit v => wrap v | Var x => wrap (getvar SM s x) | _ => 0 end.
+Lemma noncomplex_pure e : is_complex e = false -> forall s, ev e s = Norm (pval e s) s.
+Proof. destruct e; cbn; intros; try discriminate; reflexivity. Qed.
+Lemma pval_range e s : inw (pval e s).
+Proof. destruct e; cbn; try apply wrap_range. unfold inw; wl. Qed.
+
+Lemma tsem_noX t vy : cntX t = 0%nat -> forall a b, tsem t a vy = tsem t b vy.
 Proof.
-  intros Py. induction t; cbn [cntX inst tsem]; intros C vx tr; try discriminate.
+  induction t; cbn [cntX tsem]; intros C a b; try discriminate; auto.
+  - rewrite (IHt C a b). reflexivity.
+  - rewrite (IHt1 ltac:(lia) a b), (IHt2 ltac:(lia) a b). reflexivity.
+Qed.
+
+Lemma tsem_noY t vx : cntY t = 0%nat -> forall a b, tsem t vx a = tsem t vx b.
+Proof.
+  induction t; cbn [cntY tsem]; intros C a b; try discriminate; auto.
+  - rewrite (IHt C a b). reflexivity.
+  - rewrite (IHt1 ltac:(lia) a b), (IHt2 ltac:(lia) a b). reflexivity.
+Qed.
+
+(* instantiation when the other slot is a constant without effect *)
+Lemma instX_0 t x y vy :
+  (forall s, ev y s = Norm vy s) -> cntX t = 0%nat ->
+  forall vx s, ev (inst t x y) s = Norm (tsem t vx vy) s.
+Proof.
+  intros Py. induction t; cbn [cntX inst tsem]; intros C vx s; try discriminate.
   - reflexivity.
   - apply Py.
   - rewrite eval_un, (IHt C vx). reflexivity.
-  - rewrite eval_bin. rewrite (IHt2 ltac:(lia) vx). cbn [fst snd]. rewrite (IHt1 ltac:(lia) vx). reflexivity.
-  - cbn [eval]. apply IHt; assumption.
+  - rewrite eval_bin. rewrite (IHt2 ltac:(lia) vx). rewrite (IHt1 ltac:(lia) vx). reflexivity.
+  - rewrite eval_seq1. apply IHt; assumption.
 Qed.
-Lemma instX_1 en orc t x y vy :
-  (forall tr, eval en orc y tr = (vy, tr)) -> cntX t = 1%nat ->
-  forall tr, eval en orc (inst t x y) tr = (tsem t (fst (eval en orc x tr)) vy, snd (eval en orc x tr)).
+Lemma instX_1 t x y vy :
+  (forall s, ev y s = Norm vy s) -> cntX t = 1%nat ->
+  forall s, ev (inst t x y) s =
+    match ev x s with Norm vx s' => Norm (tsem t vx vy) s' | Halt h => Halt h end.
 Proof.
-  intros Py. induction t; cbn [cntX inst tsem]; intros C tr; try discriminate.
-  - destruct (eval en orc x tr); reflexivity.
-  - rewrite eval_un, IHt by assumption. reflexivity.
+  intros Py. induction t; cbn [cntX inst tsem]; intros C s; try discriminate.
+  - destruct (ev x s); reflexivity.
+  - rewrite eval_un, IHt by assumption. destruct (ev x s); reflexivity.
   - rewrite eval_bin. destruct (cntX t2) eqn:C2.
-    + rewrite (instX_0 en orc t2 x y vy Py C2 (fst (eval en orc x tr))). cbn [fst snd].
-      rewrite (IHt1 ltac:(lia)). reflexivity.
-    + rewrite (IHt2 ltac:(lia)). cbn [fst snd].
-      rewrite (instX_0 en orc t1 x y vy Py ltac:(lia) (fst (eval en orc x tr))). reflexivity.
-  - cbn [eval]. apply IHt; assumption.
+    + rewrite (instX_0 t2 x y vy Py C2 0). rewrite (IHt1 ltac:(lia)).
+      destruct (ev x s) as [vx s'|]; [|reflexivity].
+      rewrite (tsem_noX t2 vy C2 0 vx). reflexivity.
+    + rewrite (IHt2 ltac:(lia)). destruct (ev x s) as [vx s'|]; [|reflexivity].
+      rewrite (instX_0 t1 x y vy Py ltac:(lia) vx). reflexivity.
+  - rewrite eval_seq1. apply IHt; assumption.
 Qed.
-Lemma instY_0 en orc t x y vx :
-  (forall tr, eval en orc x tr = (vx, tr)) -> cntY t = 0%nat ->
-  forall vy tr, eval en orc (inst t x y) tr = (tsem t vx vy, tr).
+Lemma instY_0 t x y vx :
+  (forall s, ev x s = Norm vx s) -> cntY t = 0%nat ->
+  forall vy s, ev (inst t x y) s = Norm (tsem t vx vy) s.
 Proof.
-  intros Px. induction t; cbn [cntY inst tsem]; intros C vy tr; try discriminate.
+  intros Px. induction t; cbn [cntY inst tsem]; intros C vy s; try discriminate.
   - reflexivity.
   - apply Px.
   - rewrite eval_un, (IHt C vy). reflexivity.
-  - rewrite eval_bin. rewrite (IHt2 ltac:(lia) vy). cbn [fst snd]. rewrite (IHt1 ltac:(lia) vy). reflexivity.
-  - cbn [eval]. apply IHt; assumption.
+  - rewrite eval_bin. rewrite (IHt2 ltac:(lia) vy). rewrite (IHt1 ltac:(lia) vy). reflexivity.
+  - rewrite eval_seq1. apply IHt; assumption.
 Qed.
-Lemma instY_1 en orc t x y vx :
-  (forall tr, eval en orc x tr = (vx, tr)) -> cntY t = 1%nat ->
-  forall tr, eval en orc (inst t x y) tr = (tsem t vx (fst (eval en orc y tr)), snd (eval en orc y tr)).
+Lemma instY_1 t x y vx :
+  (forall s, ev x s = Norm vx s) -> cntY t = 1%nat ->
+  forall s, ev (inst t x y) s =
+    match ev y s with Norm vy s' => Norm (tsem t vx vy) s' | Halt h => Halt h end.
 Proof.
-  intros Px. induction t; cbn [cntY inst tsem]; intros C tr; try discriminate.
-  - destruct (eval en orc y tr); reflexivity.
-  - rewrite eval_un, IHt by assumption. reflexivity.
+  intros Px. induction t; cbn [cntY inst tsem]; intros C s; try discriminate.
+  - destruct (ev y s); reflexivity.
+  - rewrite eval_un, IHt by assumption. destruct (ev y s); reflexivity.
   - rewrite eval_bin. destruct (cntY t2) eqn:C2.
-    + rewrite (instY_0 en orc t2 x y vx Px C2 (fst (eval en orc y tr))). cbn [fst snd].
-      rewrite (IHt1 ltac:(lia)). reflexivity.
-    + rewrite (IHt2 ltac:(lia)). cbn [fst snd].
-      rewrite (instY_0 en orc t1 x y vx Px ltac:(lia) (fst (eval en orc y tr))). reflexivity.
-  - cbn [eval]. apply IHt; assumption.
+    + rewrite (instY_0 t2 x y vx Px C2 0). rewrite (IHt1 ltac:(lia)).
+      destruct (ev y s) as [vy s'|]; [|reflexivity].
+      rewrite (tsem_noY t2 vx C2 0 vy). reflexivity.
+    + rewrite (IHt2 ltac:(lia)). destruct (ev y s) as [vy s'|]; [|reflexivity].
+      rewrite (instY_0 t1 x y vx Px ltac:(lia) vy). reflexivity.
+  - rewrite eval_seq1. apply IHt; assumption.
 Qed.
 
 Lemma finalize_inv x y t e' :
@@ -140,6 +257,7 @@ Proof.
   - apply usesY_cnt in C. rewrite C in E2. cbn in E2. rewrite andb_true_r in E2. exact E2.
 Qed.
 
+
 (* generic rule lemma: the second argument is a literal *)
 Lemma rule_lit_y o x v T e' :
   wf x -> lit_ok v -> twf T ->
@@ -149,13 +267,14 @@ Lemma rule_lit_y o x v T e' :
 Proof.
   intros Wx Wv WT F C S. apply finalize_inv in F. destruct F as [-> [Fx _]].
   split; [|apply inst_wf; auto].
-  intros en orc tr. rewrite eval_bin. cbn [eval fst snd].
+  intros s. rewrite eval_bin, eval_lit.
   destruct (cntX T) as [|[|n]] eqn:CT; [| |lia].
-  - rewrite (noncomplex_pure x en orc (Fx eq_refl)). cbn [fst snd].
-    rewrite (instX_0 en orc T x (Lit v) (wrap v) (fun tr => eq_refl) CT (fst (eval en orc x []))).
-    rewrite S by apply eval_range. reflexivity.
-  - rewrite (instX_1 en orc T x (Lit v) (wrap v) (fun tr => eq_refl) CT).
-    rewrite S by apply eval_range. reflexivity.
+  - rewrite (noncomplex_pure x (Fx eq_refl)).
+    rewrite (instX_0 T x (Lit v) (wrap v) (fun s => eq_refl) CT (pval x s)).
+    rewrite S by apply pval_range. reflexivity.
+  - rewrite (instX_1 T x (Lit v) (wrap v) (fun s => eq_refl) CT).
+    destruct (ev x s) as [vx s'|] eqn:E; [|reflexivity].
+    rewrite S by (eapply eval_range; eauto). reflexivity.
 Qed.
 (* ... the first argument is a literal *)
 Lemma rule_lit_x o v y T e' :
@@ -166,13 +285,14 @@ Lemma rule_lit_x o v y T e' :
 Proof.
   intros Wy Wv WT F C S. apply finalize_inv in F. destruct F as [-> [_ Fy]].
   split; [|apply inst_wf; auto].
-  intros en orc tr. rewrite eval_bin. cbn [eval fst snd].
+  intros s. rewrite eval_bin.
   destruct (cntY T) as [|[|n]] eqn:CT; [| |lia].
-  - rewrite (noncomplex_pure y en orc (Fy eq_refl)). cbn [fst snd].
-    rewrite (instY_0 en orc T (Lit v) y (wrap v) (fun tr => eq_refl) CT (fst (eval en orc y []))).
-    rewrite S by apply eval_range. reflexivity.
-  - rewrite (instY_1 en orc T (Lit v) y (wrap v) (fun tr => eq_refl) CT).
-    rewrite S by apply eval_range. reflexivity.
+  - rewrite (noncomplex_pure y (Fy eq_refl)). rewrite eval_lit.
+    rewrite (instY_0 T (Lit v) y (wrap v) (fun s => eq_refl) CT (pval y s)).
+    rewrite S by apply pval_range. reflexivity.
+  - rewrite (instY_1 T (Lit v) y (wrap v) (fun s => eq_refl) CT).
+    destruct (ev y s) as [vy s'|] eqn:E; [|reflexivity]. rewrite eval_lit.
+    rewrite S by (eapply eval_range; eauto). reflexivity.
 Qed.
 
 (* ---- literal views ---- *)
@@ -579,8 +699,8 @@ Lemma r_ceq o x y c : wf x -> wf y -> lit_ok c -> ceq x y = true ->
 Proof.
   intros Wx Wy Lc H S e' F. apply ceq_inv in H. destruct H as [<- Nx].
   apply finalize_inv in F. destruct F as [-> _]. split; [|exact Lc].
-  intros en orc tr. rewrite eval_bin. rewrite (noncomplex_pure x en orc Nx tr). cbn [fst snd].
-  rewrite (noncomplex_pure x en orc Nx tr). cbn [fst snd inst eval]. rewrite S by apply eval_range. reflexivity.
+  intros s. rewrite eval_bin. rewrite !(noncomplex_pure x Nx). cbn [inst]. rewrite eval_lit.
+  rewrite S by apply pval_range. reflexivity.
 Qed.
 Lemma self_zero o v : memb o [B_sub; B_xor; B_ne] = true \/ strict_comparison o = true -> bop_sem o v v = wrap 0.
 Proof.
@@ -601,7 +721,10 @@ Lemma r_both o o1 o2 x y : wf x -> wf y ->
   rule_ok o x y (TUn o1 (TBin o2 TX TY)).
 Proof.
   intros Wx Wy S e' F. apply finalize_inv in F. destruct F as [-> _]. split; [|cbn; auto].
-  intros en orc tr. cbn [inst]. rewrite eval_un, !eval_bin. cbn [fst snd]. rewrite S by apply eval_range. reflexivity.
+  intros s. cbn [inst]. rewrite eval_un, !eval_bin.
+  destruct (ev y s) as [vy s1|] eqn:Ey; [|reflexivity].
+  destruct (ev x s1) as [vx s2|] eqn:Ex; [|reflexivity].
+  rewrite S by (eapply eval_range; eauto). reflexivity.
 Qed.
 Lemma xor_eq vx vy : uop_sem U_iszero (bop_sem B_xor vx vy) = bop_sem B_eq vx vy.
 Proof.
@@ -615,8 +738,8 @@ Lemma r_or_truthy x v e' : wf x -> lit_ok v -> int_is true (Lit v) 0 = false ->
   finalize x (Lit v) (TLit 1) = Some e' -> equiv true (Bin B_or x (Lit v)) e' /\ wf e'.
 Proof.
   intros Wx Wv H F. apply finalize_inv in F. destruct F as [-> [Nx _]]. split; [|exact lit_ok_1].
-  intros en orc tr. rewrite eval_bin. cbn [eval fst snd inst]. rewrite (noncomplex_pure x en orc (Nx eq_refl) tr).
-  cbn [fst snd]. split; [reflexivity|]. cbn [bop_sem]. unfold w_or.
+  intros s. rewrite eval_bin, eval_lit. cbn [inst]. rewrite eval_lit. rewrite (noncomplex_pure x (Nx eq_refl)).
+  cbn [oeq_truthy]. split; [reflexivity|]. cbn [bop_sem]. unfold w_or.
   cbn [int_is] in H. rewrite evm_int_u in H by exact Wv. apply Z.eqb_neq in H.
   rewrite wrap_1. change (1 =? 0) with false. apply Z.eqb_neq. intros E. apply Z.lor_eq_0_iff in E. tauto.
 Qed.
@@ -716,7 +839,7 @@ Qed.
 Lemma swap_equiv o v y : commutative o = true ->
   equiv_val (Bin o (Lit v) y) (Bin o y (Lit v)).
 Proof.
-  intros C en orc tr. rewrite !eval_bin. cbn [eval fst snd]. f_equal.
+  intros C s. rewrite !eval_bin, !eval_lit. destruct (ev y s) as [vy s1|]; [|reflexivity]. rewrite eval_lit. f_equal.
   destruct o; try discriminate C; cbn [bop_sem]; unfold w_add, w_mul, w_eq, w_and, w_or, w_xor.
   - rewrite Z.add_comm; reflexivity.
   - rewrite Z.mul_comm; reflexivity.
@@ -728,7 +851,7 @@ Proof.
 Qed.
 
 Lemma equiv_trans_val t e1 e2 e3 : equiv_val e1 e2 -> equiv t e2 e3 -> equiv t e1 e3.
-Proof. intros H1 H2 en orc tr. rewrite (H1 en orc tr). apply H2. Qed.
+Proof. intros H1 H2 s. specialize (H2 s). rewrite (H1 s). exact H2. Qed.
 
 (* opt_binop_sound: the model never fails on well-formed arguments; whatever it returns evaluates
    like the original node: same effect trace (nothing dropped, duplicated or reordered) and same
@@ -753,13 +876,13 @@ Proof.
     destruct (GEN y (Lit v) Wy Wx) as (r & E & S). exists r. split; [exact E|].
     intros e' He'. destruct (S e' He') as [EQ WF]. split; [|exact WF].
     eapply equiv_trans_val; [apply swap_equiv; exact M | exact EQ]. }
-  destruct a as [l| | | | | |]; try (apply SW; assumption).
-  destruct b as [r| | | | | |]; try (apply SW; assumption).
+  destruct a as [l| |]; try (apply SW; assumption).
+  destruct b as [r| |]; try (apply SW; assumption).
   cbn [wf] in Wa, Wb.
   destruct (arith_fold_sound_all o ltac:(congruence) l r Wa Wb) as (w & E & Lw & S).
   rewrite E. cbn [bind]. eexists; split; [reflexivity|]. intros e' He'.
   cbn in He'. inversion He'; subst e'. split; [|exact Lw].
-  apply equiv_val_any. intros en orc tr. rewrite eval_bin. cbn [eval fst snd]. rewrite S. reflexivity.
+  apply equiv_val_any. intros s. rewrite eval_bin, !eval_lit, S. reflexivity.
 Qed.
 
 (* rollback_preserves_effects: a rewrite is applied only if every complex argument occurs in it *)
@@ -771,3 +894,4 @@ Proof.
   intros _. apply orb_false_iff in E. destruct E as [E1 E2].
   split; intros C; rewrite C in *; cbn in *; [destruct (usesX T) | destruct (usesY T)]; auto; discriminate.
 Qed.
+End S.
